@@ -11,6 +11,7 @@ import Driver.Alleg
 import Driver.Gov
 import Driver.Elect
 import Driver.Evm
+import Driver.Bid
 
 def main (args : List String) : IO UInt32 := do
   match args with
@@ -27,4 +28,5 @@ def main (args : List String) : IO UInt32 := do
   | ["gov"] => Driver.Gov.main; return 0
   | ["elect"] => Driver.Elect.main; return 0
   | ["evm"] => Driver.Evm.main; return 0
+  | ["bidm"] => Driver.Bid.main; return 0
   | _ => IO.eprintln "usage: olpdriver <engine>  (engines: kv, shell)"; return 2
